@@ -6,6 +6,7 @@ import sink
 import wgslgen as W
 
 ID = "C16"
+ENV_COMPARE = 30         # cases generated once more from a cargo build-script environment: same result (lib/runner.py)
 REQUIRES = ["Agree", "StrLit"]
 THEOREM_REQUIRES = ["C16"]
 THEOREMS = ["C16_roundtrip", "C16_literal_wellformed", "C16_source_field", "C16_include_only_source", "C16_text", "C16_roundtrip_chars"]
